@@ -93,6 +93,8 @@ fn c03_single_write_mapping() {
     kani::assume(g.bs == 9 && g.l2sb == 9);
     let has_back: bool = kani::any();
     let mut env = KEnv::new(info_of(&g, 1u64 << 62, false, false, has_back));
+    let nf0: bool = kani::any();
+    env.mark_need_flush(nf0);
     let cs = 1u64 << g.cb;
     let host: u64 = kani::any();
     kani::assume(host != 0 && host & (cs - 1) == 0 && host >> 56 == 0);
@@ -137,6 +139,8 @@ fn c03_single_write_mapping() {
     }
     if now != old {
         assert!(h.is_dirty() && env.need_flush_meta());
+    } else {
+        assert!(env.need_flush_meta() == nf0);
     }
     kani::cover!(in_place);
     kani::cover!(!in_place && old & spec::COMPRESSED != 0);
